@@ -176,7 +176,13 @@ func workload05(r *rand.Rand, hist map[string]int) (desc []string, fail string, 
 	}
 	// every process exits (some mid-flight), then whatever action is still held returns
 	for _, i := range r.Perm(len(procs)) {
-		procs[i].Exit(nil)
+		exited := make(chan struct{})
+		go func() { procs[i].Exit(nil); close(exited) }()
+		select {
+		case <-exited:
+		case <-time.After(3 * time.Second):
+			return append(desc, "a process exits"), "Process.Exit did not return within 3s (an exit hook is wedged)", ""
+		}
 	}
 	desc = append(desc, "all processes exit")
 	hist["wl_total"]++
@@ -342,6 +348,86 @@ func witnessC05d() (bool, string) {
 
 var _ = port.NewIn
 
+// probeExitDuringWrite05 forces one schedule on a bare out-port -> in-port pair: the process exits while its
+// reader still owes an answer, the drop notice Reader.Close issues is held at the top of Writer.receive
+// (verif gate), and meanwhile another goroutine writes on the same writer.  Neither the write nor the exit
+// may wait for the held notice.
+func probeExitDuringWrite05() string { return probeTeardownDuringWrite("exit") }
+
+// how: "exit" (process exit), "reader" (Reader.Close), "port" (InPort.Close)
+func probeTeardownDuringWrite(how string) string {
+	out, in := port.NewOut(), port.NewIn()
+	out.Link(in)
+	proc := process.New()
+	w := out.Open(proc)
+	r := in.Open(proc)
+	go func() {
+		for range w.Receive() {
+		}
+	}()
+	if w.Write(packet.New(types.NewInt(1))) != 1 {
+		return "probe: the write was not accepted"
+	}
+	if recvTimeout(r.Read()) == nil {
+		return "probe: the request did not arrive"
+	}
+	g := theGate
+	g.mu.Lock()
+	g.w, g.active, g.parked = w, true, nil
+	g.mu.Unlock()
+	releaseAll := func() {
+		g.mu.Lock()
+		g.active = false
+		ps := g.parked
+		g.parked = nil
+		g.mu.Unlock()
+		for _, p := range ps {
+			select {
+			case <-p.release:
+			default:
+				close(p.release)
+			}
+		}
+	}
+	defer releaseAll()
+	exitDone := make(chan struct{})
+	go func() {
+		switch how {
+		case "reader":
+			r.Close()
+		case "port":
+			in.Close()
+		default:
+			proc.Exit(nil)
+		}
+		close(exitDone)
+	}()
+	if !g.waitParked(1) {
+		return "process exit with a request outstanding at a reader: no drop notice reached the writer within 5s"
+	}
+	wrote := make(chan int, 1)
+	go func() { wrote <- w.Write(packet.New(types.NewInt(2))) }()
+	fail := ""
+	select {
+	case <-wrote:
+	case <-time.After(2 * time.Second):
+		fail = "a Write on the writer does not return while the reader it is linked to is being closed (" + how + "): the closing reader notifies the writer with its own lock held; the two wait for each other"
+	}
+	releaseAll()
+	select {
+	case <-exitDone:
+	case <-time.After(2 * time.Second):
+		if fail == "" {
+			fail = "the teardown (" + how + ") did not return within 2s although every drop notice was delivered"
+		}
+	}
+	if fail == "" {
+		out.Close()
+		in.Close()
+	}
+	return fail
+}
+
 func runC05Workflows(seed int64, tier string) map[string]any {
 	r := rand.New(rand.NewSource(seed + 7))
 	n := 60
@@ -360,6 +446,12 @@ func runC05Workflows(seed int64, tier string) map[string]any {
 			out["failure"] = "after the workload and the exit of every process: " + fail
 			out["failing_workload"] = desc
 			break
+		}
+	}
+	if _, bad := out["failure"]; !bad {
+		if f := probeExitDuringWrite05(); f != "" {
+			out["failure"] = f
+			out["failing_workload"] = []string{"out-port linked to in-port", "write (accepted, unanswered)", "process exit in one goroutine; the reader's drop notice held at the top of Writer.receive", "write on the same writer from another goroutine"}
 		}
 	}
 	if ok, detail := witnessC05d(); ok {
